@@ -452,7 +452,8 @@ class Light(SystemWideDevice, DevicePositionMixin):
         elif not isinstance(key, str):
             raise AssertionError("Key should be string")
 
-        if self.stack and priority < self._get_priority_from_key(key):
+        existing_priority = self._get_priority_from_key(key)
+        if existing_priority is not None and priority < existing_priority:
             if self._debug:
                 self.debug_log("Incoming priority %s is lower than an existing "
                                "stack item with the same key %s. Not adding to "
@@ -671,14 +672,14 @@ class Light(SystemWideDevice, DevicePositionMixin):
         self._schedule_update()
 
     def _get_priority_from_key(self, key):
-        if not self.stack:
-            return 0
-        if self.stack[0].key == key:
-            return self.stack[0].priority
+        """Return the priority of the live stack entry with this key.
+
+        None if there is none (the transparent rest of a removed key which is still fading out does not count).
+        """
         try:
-            return [x for x in self.stack if x.key == key][0].priority
+            return [x for x in self.stack if x.key == key and x.dest_color is not None][0].priority
         except IndexError:
-            return 0
+            return None
 
     def gamma_correct(self, color):
         """Apply max brightness correction to color.
